@@ -128,8 +128,14 @@ def coq_pack_expr(t, v, b5, addr, info):
             f"enc (TTuple [TBytes {info['n2']}]) (VList [VBytes ({mid} ++ eC)])]")
 
 
-PACK_DEF = ('Definition pack (l : list (list Z)) : string := '
-            'String.concat "|" (map hex_of_bytes l).\n')
+# printed as a list of short strings (one long concatenated string overflows coqc's stack in vm_compute/printing)
+PACK_DEF = 'Definition pack (l : list (list Z)) : list string := map hex_of_bytes l.\n'
+
+
+def unpack(o):
+    import re
+    return [bytes.fromhex(x) for x in re.findall(r'"([0-9a-f]*)"', o)]
+
 
 
 def sig(name, tys):
